@@ -235,6 +235,19 @@ def search(ctx, escalate=False):
             if not np.allclose(arr, sc, rtol=1e-12, atol=1e-12):
                 fail("C19:pump-scalar-vs-array", "same lift for scalar and array queries", pump=nm,
                      array=arr.tolist()[:3], scalar=sc.tolist()[:3])
+    # ... also through the bulk function with one std type per pipe
+    net = pp.create_empty_network(fluid="water")
+    j = pp.create_junctions(net, 2, 5.0, 300.0)
+    names = list(net.std_types["pipe"].keys())[:ctx.budget(6, 60)]
+    if len(names) >= 2:
+        idxs = pp.create_pipes(net, [j[0]] * len(names), [j[1]] * len(names), std_type=names, length_km=0.1)
+        n += 1
+        for idx, nm in zip(idxs, names):
+            par = net.std_types["pipe"][nm]
+            for c in ("inner_diameter_mm", "outer_diameter_mm"):
+                if c in par and not (isinstance(par[c], float) and np.isnan(par[c])) and abs(net.pipe.at[idx, c] - par[c]) > 0:
+                    fail("C19:std-type-parameter:create_pipes:%s" % c, "standard-type parameters reach created pipes unchanged",
+                         std_type=nm, column=c, created=float(net.pipe.at[idx, c]), std_type_value=float(par[c]))
     # standard-type parameters reach created pipes unchanged
     net = pp.create_empty_network(fluid="water")
     j = pp.create_junctions(net, 2, 5.0, 300.0)
